@@ -158,21 +158,21 @@ const (
 )
 
 type GenCfg struct {
-	MaxStmts      int // toplevel statements
-	MaxBody       int // statements per block body
-	ExprDepth     int
-	MaxNest       int      // block nesting
-	Names         []string // variable / field names
-	Types         []string // block types
-	BlockNames    []string // block names ("" = unnamed)
-	ErrPct        int      // percent of deliberately unchecked (possibly failing) expressions
-	ParenPct      int      // percent chance of a redundant parenthesis per node
-	AssignPct     int      // percent chance of an embedded assignment where an operand is generated
-	HostileLits   bool     // hostile literal spellings
+	MaxStmts                                int // toplevel statements
+	MaxBody                                 int // statements per block body
+	ExprDepth                               int
+	MaxNest                                 int      // block nesting
+	Names                                   []string // variable / field names
+	Types                                   []string // block types
+	BlockNames                              []string // block names ("" = unnamed)
+	ErrPct                                  int      // percent of deliberately unchecked (possibly failing) expressions
+	ParenPct                                int      // percent chance of a redundant parenthesis per node
+	AssignPct                               int      // percent chance of an embedded assignment where an operand is generated
+	HostileLits                             bool     // hostile literal spellings
 	WVar, WPrint, WEval, WExpr, WDef, WBind int
-	CompileErrPct int // percent of programs with an injected static compile error
-	PreDecl       bool // start with one variable of every type
-	ShadowBias    bool // prefer re-using names (shadowing, var x = x+1)
+	CompileErrPct                           int  // percent of programs with an injected static compile error
+	PreDecl                                 bool // start with one variable of every type
+	ShadowBias                              bool // prefer re-using names (shadowing, var x = x+1)
 }
 
 type Gen struct {
